@@ -150,6 +150,9 @@ pub fn gen_world(seed: u64) -> C13World {
     }
     let path_of = |d: &str, n: &str| if d == "." { n.to_string() } else { format!("{d}/{n}") };
     let mut alias_d = false;
+    let mut alias_j = false;
+    // (alias spelling, root-relative path of the file it points at)
+    let mut alias_targets: Vec<(String, String)> = Vec::new();
     // which module the alias points at: any of b, c, d - also modules with relative imports of their own, whose
     // directory for those imports is then the ALIAS's directory when the alias is what loaded them first
     let alias_name: &str = NAMES[1 + r.usize_below(NAMES.len() - 1)];
@@ -161,9 +164,40 @@ pub fn gen_world(seed: u64) -> C13World {
         let alias_path = if main_dir.as_deref() == Some(".") { "alias_d.libsonnet".to_string() } else { "app/alias_d.libsonnet".to_string() };
         tree.push((alias_path, Entry::Symlink(format!("{up}{target}"))));
         alias_d = true;
+        if main_dir.is_some() {
+            alias_targets.push(("alias_d.libsonnet".into(), target));
+        }
+    }
+    let real_j: Vec<String> = jdirs.iter().filter(|j| matches!(j.as_str(), "j0" | "j1" | "j2")).cloned().collect();
+    if !real_j.is_empty() && r.chance(1, 2) {
+        // ... and one in a library directory, found through the -J search from anywhere
+        let jd = r.pick(&real_j).clone();
+        let d = r.pick(&copies[alias_name]).clone();
+        let target = path_of(&d, alias_name);
+        tree.push((format!("{jd}/alias_j.libsonnet"), Entry::Symlink(format!("../{target}"))));
+        alias_j = true;
+        alias_targets.push(("alias_j.libsonnet".into(), target));
     }
     // planted faults of the real kind
-    let planted = if r.chance(1, 6) { r.below(5) + 1 } else { 0 };
+    let mut planted = if r.chance(1, 5) { r.below(6) + 1 } else { 0 };
+    let mut extra_modules: Vec<(String, String)> = Vec::new(); // (root-relative path, id) of leaf modules planted below
+    if planted == 6 {
+        // a regular FILE named like the first component of a two-component spelling sits in the first search location
+        // (the candidate there does not exist: ENOTDIR); the real file is in a later library directory
+        let mut search: Vec<String> = Vec::new();
+        if let Some(d) = &main_dir {
+            search.push(d.clone());
+        }
+        search.extend(jdirs.iter().rev().filter(|j| real_j.contains(j)).cloned());
+        if search.len() >= 2 {
+            tree.push((path_of(&search[0], "pkg"), Entry::File(b"a file where a later search location has a directory\n".to_vec())));
+            let k = 1 + r.usize_below(search.len() - 1);
+            tree.push((path_of(&search[k], "pkg"), Entry::Dir));
+            extra_modules.push((format!("{}/pkg/inner.libsonnet", search[k]), format!("inner@{}", search[k])));
+        } else {
+            planted = 1;
+        }
+    }
     if planted == 2 {
         tree.push(("app/dangling.libsonnet".into(), Entry::Symlink("nowhere.libsonnet".into())));
     }
@@ -185,6 +219,14 @@ pub fn gen_world(seed: u64) -> C13World {
             format!("{}{}", "../".repeat(ups), tp)
         };
         let plain_ok = from_dir.map(|d| copies[name].iter().any(|c| c == d)).unwrap_or(false) || jd.iter().any(|j| copies[name].contains(j));
+        if name == alias_name && (alias_d || alias_j) && r.chance(1, 3) {
+            if alias_j && (!alias_d || r.chance(1, 2)) {
+                return "alias_j.libsonnet".to_string();
+            }
+            if alias_d && (from_dir == Some("app") || from_dir == Some(".")) {
+                return "alias_d.libsonnet".to_string();
+            }
+        }
         let pick = r.below(20);
         let pick = if pick <= 8 && !plain_ok && r.chance(9, 10) { 9 + r.below(5) } else { pick };
         match pick {
@@ -243,11 +285,27 @@ pub fn gen_world(seed: u64) -> C13World {
                 }
             }
         }
+        if is_main && !alias_targets.is_empty() && r.chance(1, 2) {
+            // the same file demanded through a symlink to it AND by a direct spelling, in either order
+            let (alias_sp, target) = r.pick(&alias_targets).clone();
+            let mut pair = vec![alias_sp, format!("<ROOT>/{target}")];
+            if r.chance(1, 2) {
+                pair.reverse();
+            }
+            for sp in pair {
+                let at = r.usize_below(deps.len() + 1);
+                deps.insert(at, Dep { field: String::new(), kind: DepKind::Import, spelling: sp, line: 0, col: 0 });
+            }
+            for (k, d) in deps.iter_mut().enumerate() {
+                d.field = format!("d{k}");
+            }
+        }
         if is_main && planted > 0 {
             let sp = match planted {
                 1 => "nonexistent_x.libsonnet",
                 2 => "dangling.libsonnet",
                 4 => "loop_a.libsonnet",
+                6 => "pkg/inner.libsonnet",
                 5 => "<ROOT>/app/cyc_a.libsonnet",
                 _ => "isdir.libsonnet",
             };
@@ -290,6 +348,12 @@ pub fn gen_world(seed: u64) -> C13World {
         let mut c = content;
         c.extend_from_slice(d.as_bytes());
         tree.push((path_of(&d, "u.bin"), Entry::File(c)));
+    }
+    for (p, id) in &extra_modules {
+        let mut deps = Vec::new();
+        let text = module_text(id, &mut deps, None, None);
+        tree.push((p.clone(), Entry::File(text.into_bytes())));
+        modules.insert(p.clone(), Module { id: id.clone(), deps });
     }
     if planted == 5 {
         // an import cycle that IS demanded: infinite recursion must be reported, each module evaluated at most once
@@ -799,6 +863,8 @@ pub fn check_fault_free(w: &C13World, out: &RunOut, pred: &Predicted) -> Result<
 pub struct FaultPlan {
     pub rules: Vec<Rule>,
     pub hard: bool,
+    /// short reads only: no call fails, so the run must be indistinguishable from the fault-free one
+    pub invisible: bool,
     pub kind: String,
     pub file: String,
 }
@@ -808,7 +874,7 @@ pub fn fault_plans(log: &[LogLine], rng: &mut Rng, limit: usize) -> Vec<FaultPla
     for (op, target, k, _is_out, _last) in crate::c12::instances(log) {
         let Some(file) = target.strip_prefix("path:") else { continue };
         let nth = format!("nth:{k}");
-        let mk = |rules: Vec<Rule>, hard: bool, kind: &str| FaultPlan { rules, hard, kind: kind.to_string(), file: file.to_string() };
+        let mk = |rules: Vec<Rule>, hard: bool, kind: &str| FaultPlan { rules, hard, invisible: kind == "read:short", kind: kind.to_string(), file: file.to_string() };
         match op.as_str() {
             "open" => {
                 for e in ["EACCES", "EIO", "EMFILE", "ENOENT"] {
@@ -821,6 +887,7 @@ pub fn fault_plans(log: &[LogLine], rng: &mut Rng, limit: usize) -> Vec<FaultPla
                 plans.push(mk(vec![Rule::new("read", &target, &nth, "eintr")], false, "read:eintr"));
                 let n = 1 + rng.below(9);
                 plans.push(mk(vec![Rule::new("read", &target, &format!("from:{k}"), &format!("short:{n}"))], false, "read:short"));
+                plans.push(mk((0..3).map(|d| Rule::new("read", &target, &format!("nth:{}", k + d), "eintr")).collect(), false, "read:eintr-x3"));
             }
             "realpath" => {
                 for e in ["EACCES", "ELOOP"] {
@@ -853,7 +920,7 @@ pub fn check_fault_run(w: &C13World, base: &RunOut, pred: &Predicted, plan: &Fau
     }
     let fired_err = out.log.iter().any(|l| l.injected && matches!(&l.result, Err(e) if e != "EINTR"));
     let fired = out.log.iter().any(|l| l.injected);
-    if !fired || (!plan.hard && out.exit == Some(0)) || pred.ambiguous {
+    if !fired || (!plan.hard && out.exit == Some(0)) || pred.ambiguous || plan.invisible {
         // invisible: the run must be indistinguishable from the fault-free one
         if pred.ambiguous {
             return Ok(());
@@ -1139,7 +1206,14 @@ fn check_stat_run(w: &C13World, rules: &[Rule], target: &str, out: &RunOut, i: u
     let pred = predict_with(w, &root, &absent);
     match check_fault_free(w, out, &pred) {
         Ok(()) => Ok(()),
-        Err((inv, class, msg)) => Err(violation(w, rules, &inv, &format!("stat-fault:{class}"), &format!("(existence test of {target} failing) {msg}"), i, out, false)),
+        Err((inv, class, msg)) => {
+            // ... or as present after all (a tool may go on and open the file, which is there): the fault-free prediction
+            let present = predict(w, &root);
+            if check_fault_free(w, out, &present).is_ok() {
+                return Ok(());
+            }
+            Err(violation(w, rules, &inv, &format!("stat-fault:{class}"), &format!("(existence test of {target} failing) {msg}"), i, out, false))
+        }
     }
 }
 
@@ -1162,7 +1236,8 @@ pub fn replay(scenario: &Json) -> Result<Option<Violation>, String> {
     let hard = plan.iter().any(|r| r.act.starts_with("errno:"));
     let a = plan[0].act.replace("errno:", "");
     let kind = format!("{}:{}", plan[0].op, if a.starts_with("short") { "short".to_string() } else { a });
-    let fp = FaultPlan { rules: plan.clone(), hard, kind, file };
+    let kind = if plan.len() == 3 && plan.iter().all(|r| r.act == "eintr") { format!("{}:eintr-x3", plan[0].op) } else { kind };
+    let fp = FaultPlan { rules: plan.clone(), hard, invisible: plan.iter().all(|r| r.act.starts_with("short")), kind, file };
     let out = run_world(&w.world, &plan);
     Ok(check_fault_run(&w, &base, &pred, &fp, &out).err().map(|(inv, class, msg)| violation(&w, &plan, &inv, &class, &msg, 0, &out, true)))
 }
@@ -1244,8 +1319,8 @@ pub fn run_batch(tier: &str, root: u64, workers: usize, scale: u64) -> i32 {
         ],
         assumptions: vec![
             "the model encodes only what the statement fixes (search order, right-most -J first, absolute bypass, identity across spellings, thisFile = a path the file was loaded by, lossy/exact content); path-resolution minutiae come from the real tree".into(),
-            "symlinks to files are only made for leaf modules so that a module's sub-tree does not depend on which spelling loaded it first".into(),
-            "stat-class faults are not injected".into(),
+            "a module's value (and the directory its own relative imports resolve against) is fixed by the path that loaded it first; the model takes 'first' in depth-first field order, which is how the tool forces values".into(),
+            "stat-class faults accept 'treated as absent' or 'error'; a directory in place of a file with a later candidate is checked only for no-panic / exit status / load-once".into(),
         ],
     }
     .write();
